@@ -288,6 +288,12 @@ class Check:
                 self.problems.append(("correspondence", "targeted search over %d histories found no trace rejected by the %s monitor" % (hist, ",".join(sorted(monitors)))))
         if panics:
             self.problems.append(("monitor", "%d panics observed in the library during the campaign" % panics))
+            if "C13" in monitors:
+                path = self.save_replay("%s-panics.txt" % self.prop, "%d panics in library threads during the campaign (see stderr of tools/replay.sh on the campaign seeds)\n" % panics)
+                self.violations.append({"replay": path, "signature": "panic", "why": "panic in the library"})
+        if net_under_lock and "C12" in monitors:
+            path = self.save_replay("%s-net-under-lock.txt" % self.prop, "%d network callbacks were entered while the calling thread held the state lock\n" % net_under_lock)
+            self.violations.append({"replay": path, "signature": "net-under-lock", "why": "network callback under the state lock"})
         cov.update(evaluations=hist, distinct_nontrivial=len(distinct),
                    rule="histories generated by harness/src/gen.rs from VERIF_SEED (profiles %s); distinct = distinct op sequences, non-trivial = at least 3 operations" % [p for p, _ in self.cfg["campaign"][self.tier]],
                    samples=samples, steps_compared=steps, traces_validated_against_impl=hist,
